@@ -158,6 +158,7 @@ type Machine struct {
 	promMetrics    map[*Value]*promMetric
 	promRegistered map[*Value]map[string]bool
 	syncMaps       map[*Value]*Map
+	builders       map[*Value]Str
 }
 
 type classDef struct {
